@@ -7,6 +7,7 @@ import (
 	"fmt"
 	"hash/fnv"
 	"slices"
+	"strings"
 
 	"cuelabs.dev/go/oci/ociregistry"
 	"cuelabs.dev/go/oci/ociregistry/ocifilter"
@@ -128,15 +129,20 @@ func c12(env *core.Env, sel bool) {
 		default:
 			checks = []chk{{op.Repo, kind}}
 		}
+		// (a mount consults the policy twice; when it rejects both repositories the
+		// statement does not say which rejection is the one reported)
 		var rejected *chk
+		var allRejected []chk
 		for j := range checks {
 			ck := checks[j]
 			if sel && ck.name == "*" {
 				continue // Select always allows listing as such
 			}
 			if denied(ck.name, ck.kind) {
-				rejected = &checks[j]
-				break
+				if rejected == nil {
+					rejected = &checks[j]
+				}
+				allRejected = append(allRejected, ck)
 			}
 		}
 		if c.Bool("probe.resume", 1, 6) {
@@ -208,12 +214,18 @@ func c12(env *core.Env, sel bool) {
 				env.Failf(class("rejection-not-reported"), "%s: the policy rejects (%q, kind %d) but the call succeeded: %s", op, rejected.name, rejected.kind, rW)
 			}
 			if sel {
-				want := ociregistry.ErrNameUnknown
-				if rejected.kind == ocifilter.AccessWrite {
-					want = ociregistry.ErrDenied
+				var wants []string
+				ok := false
+				for _, rj := range allRejected {
+					want := ociregistry.ErrNameUnknown
+					if rj.kind == ocifilter.AccessWrite {
+						want = ociregistry.ErrDenied
+					}
+					wants = append(wants, want.Code())
+					ok = ok || errors.Is(err, want)
 				}
-				if !errors.Is(err, want) {
-					env.Failf(class("wrong-rejection-error"), "%s: rejected (%q, kind %d) with %s, want %s", op, rejected.name, rejected.kind, reg.CodeOf(err), want.Code())
+				if !ok {
+					env.Failf(class("wrong-rejection-error"), "%s: rejected (%q, kind %d) with %s, want %s", op, rejected.name, rejected.kind, reg.CodeOf(err), strings.Join(wants, " or "))
 				}
 			} else {
 				var oe ociregistry.Error
